@@ -39,6 +39,7 @@ def gen_case(rnd, cfg, n_blocks, p_mut, cats, deep=None, **opts):
     from vf import build
     opts = dict(opts)
     mix = opts.pop("dts_mix", None)
+    p_twin = opts.pop("p_twin", 0.12)
     if mix:
         opts["dts"] = mix[rnd.randrange(len(mix))]        # None = the default spread (1 s .. 10^6 s)
     if deep is None:
@@ -50,7 +51,7 @@ def gen_case(rnd, cfg, n_blocks, p_mut, cats, deep=None, **opts):
     ops = []
     for _ in range(n_blocks):
         op, fees = gen.honest_block()
-        if len(ops) >= 2 and rnd.random() < p_mut:
+        if rnd.random() < (p_mut if len(ops) >= 2 else p_mut / 3):
             m = None
             for _try in range(8):
                 m = gen.mutate(op, fees, cats)
@@ -71,9 +72,16 @@ def gen_case(rnd, cfg, n_blocks, p_mut, cats, deep=None, **opts):
         op["form"] = "bytes" if rnd.random() < 0.3 else "obj"
         ops.append(op)
         gen.commit(op, fees)
+        if rnd.random() < p_twin:
+            # the header of the block just offered, carried by an edited transaction list (same id, different content)
+            ops.append({"label": op["label"] + "~", "parent": op["parent"], "twin_of": op["label"], "mut": "twin",
+                        "edit": rnd.choice(["reward_big", "reward_second_output", "drop_last", "dup_last", "foreign", "swap"]),
+                        "form": "bytes" if rnd.random() < 0.5 else "obj"})
     out = {"cfg": list(cfg), "ops": ops}
     if deep is not None:
         out["deep"] = deep
+    elif rnd.random() < 0.5:
+        out["horizon"] = 0          # the checkpoint horizon sits AT genesis: height 1 is the first fully validated height
     return out
 
 
@@ -82,7 +90,7 @@ class Run:
 
     def __init__(self, case, focus):
         from vf import build
-        env.use_fast_pow()
+        env.use_fast_pow(horizon=case.get("horizon", -1))
         env.set_retarget(case["cfg"][0], case["cfg"][1])
         self.build = build
         self.case = case
@@ -101,6 +109,7 @@ class Run:
             self.world = build.World(cfg)
             self.cs = CoinState.zero()
         self.fails = []
+        self.before = {}
         self.stats = {}
         self.nontrivial = False
         self.harness = []
@@ -114,6 +123,29 @@ class Run:
     def sums(self, cs, bid):
         return sum(o.value for o in cs.unspent_transaction_outs_by_hash[bid].values())
 
+    def twin(self, op):
+        base = self.world.blocks[op["twin_of"]]
+        if base.id() not in self.world.uni.nodes:
+            raise KeyError("twin of a block that was not accepted")
+        txs = list(base.txs)
+        cb = txs[0]
+        e = op["edit"]
+        if e == "reward_big" or (e in ("drop_last", "swap") and len(txs) < (2 if e == "drop_last" else 3)):
+            txs[0] = R.RTx(cb.ins, [(cb.outs[0][0] + 10 ** 10, cb.outs[0][1])] + list(cb.outs[1:]))
+        elif e == "reward_second_output":
+            txs[0] = R.RTx(cb.ins, list(cb.outs) + [cb.outs[0]])
+        elif e == "drop_last":
+            txs = txs[:-1]
+        elif e == "dup_last":
+            txs = txs + [txs[-1]]
+        elif e == "swap":
+            txs[-1], txs[-2] = txs[-2], txs[-1]
+        elif e == "foreign":
+            names = sorted(n for n, t in self.world.txs.items() if all(t.id() != x.id() for x in txs))
+            txs = txs + [self.world.txs[names[len(names) // 2]]]
+        self.stat("twins")
+        return R.RBlock(base.height, base.prev, base.merkle, base.ts, base.target, base.nonce, base.ev, txs)
+
     def execute(self):
         b = self.build
         for op in self.case["ops"]:
@@ -121,7 +153,7 @@ class Run:
                 self.stat("skipped_missing_parent")
                 continue
             try:
-                blk = self.world.build_block(op)
+                blk = self.twin(op) if "twin_of" in op else self.world.build_block(op)
             except (KeyError, IndexError, ZeroDivisionError):
                 self.stat("skipped_unbuildable")       # happens only in shrunk cases (a referenced op was removed)
                 continue
@@ -212,6 +244,7 @@ class Run:
                                   "sum(unspent after %s)=%d > sum(parent)=%d + subsidy %d" % (op["label"], s_new, s_par, R.subsidy(blk.height)))
                     if s_new > R.cumulative_subsidy(blk.height) or s_new > R.MAX_SASHIMI:
                         self.fail("inflation", "supply-exceeds-schedule", "sum(unspent)=%d exceeds cumulative subsidy" % s_new)
+                self.before[op["label"]] = self.cs          # the (immutable) state the block was added to
                 self.cs = cs2
                 if tag:
                     self.stat("ineffective_mutation")
